@@ -133,7 +133,10 @@ def install_multicast(ncp, table: MulticastTable):
         if ans == "timeout":
             return None  # not applied, never answered
         if ans.startswith("reject"):
-            return [status(n, "setMulticastTableEntry", ans.split(":")[1])]
+            kind = ans.split(":")[1]
+            if kind.startswith("#"):
+                return [int(kind[1:])]  # raw status code
+            return [status(n, "setMulticastTableEntry", kind)]
         if i >= len(table.entries):
             return [status(n, "setMulticastTableEntry", "invalid_index")]
         table.entries[i] = [int(v.multicastId), int(v.endpoint), int(v.networkIndex)]
